@@ -524,7 +524,8 @@ func (g *specGen) next() callSpec {
 		np := reflect.Zero(reflect.PointerTo(t)).Interface()
 		fns := valid.Name2FnMap{"l_mark": markerFn(fmt.Sprintf("fn_ref_%d", s.ID))}
 		rm := valid.RM{"F0": "required|m_ref"}
-		k := rng.Intn(8)
+		k := rng.Intn(18)
+		sv := reflect.Zero(t).Interface() // a struct VALUE: Var, Map and Url refuse it
 		s.Type = t
 		s.Desc = fmt.Sprintf("refused input, variant %d on %s", k, trunc(t.String(), 80))
 		s.Run = func() string {
@@ -544,6 +545,27 @@ func (g *specGen) next() callSpec {
 					return valid.NestedStructForRule(np, map[interface{}]valid.RM{np: rm})
 				case 6:
 					return valid.Map(nil, rm)
+				case 8: // kinds Var does not take: the refusal leaves nothing behind either (no object in a wrong pool, no rules)
+					return valid.Var(sv, "required", "to=1~2|m_ref_var")
+				case 9:
+					return valid.Var(map[string]int{"a": 1}, "required")
+				case 10:
+					return valid.VarForFn(np, func(errBuf *strings.Builder, validName, objName, fieldName string, tv reflect.Value) {})
+				case 11:
+					return valid.Var(make(chan int), "required|m_ref_chan")
+				case 12:
+					return valid.Map(5, rm)
+				case 13:
+					return valid.Map(sv, rm)
+				case 14:
+					return valid.MapFn([]int{1}, rm, fns)
+				case 15:
+					return valid.Struct(5)
+				case 16:
+					return valid.StructForFns([]int{1, 2}, rm, fns)
+				case 17:
+					var up *string
+					return valid.Url(up, rm)
 				}
 				return valid.Var(nil, "required")
 			}))
